@@ -3,7 +3,9 @@
 // ocimem.NewWithConfig(ImmutableTags), with snapshots of the underlying registry before and
 // after, a walk from every tag through the manifests it references, and concurrent batches in
 // immutable-tags mode (gen.go: concInput, duelInput; operations of one goroutine aimed at the span
-// of another's through calibrated delays).  Cases are terms of coq/Obs/C14.v's [case].
+// of another's through calibrated delays; aim.go: pushes, chunked commits and mounts under the
+// digest of what a tag protects with every kind of body and size, and tags of every shape the
+// grammar allows).  Cases are terms of coq/Obs/C14.v's [case].
 package main
 
 import (
